@@ -800,12 +800,10 @@ mksection .text
         vpaddq  XWORD(%%YMM_ACC0), %%XTMP1
 
         ; Put together A
-        vmovq   %%A0, XWORD(%%YMM_ACC0)
-
+        ; (limb 0 can exceed 44 bits after the last carry above: add it in, with carry)
         vmovq   %%T0, XWORD(%%YMM_ACC1)
         mov     %%T1, %%T0
         shl     %%T1, 44
-        or      %%A0, %%T1
 
         shr     %%T0, 20
         vmovq   %%A2, XWORD(%%YMM_ACC2)
@@ -813,6 +811,11 @@ mksection .text
         shl     %%A1, 24
         or      %%A1, %%T0
         shr     %%A2, 40
+
+        vmovq   %%A0, XWORD(%%YMM_ACC0)
+        add     %%A0, %%T1
+        adc     %%A1, 0
+        adc     %%A2, 0
 
         ; Clear powers of R
 %ifdef SAFE_DATA
